@@ -747,13 +747,22 @@ def connwrite_family(run, replay=None):
         p = subprocess.run([exe, 'connwrite', '--extra', 'stress', '--n', str(n), '--trace', spath, '--seed', str(run.seed)], env=e, cwd=run.dir,
                            stdout=subprocess.PIPE, stderr=subprocess.STDOUT, timeout=1800)
         sout = p.stdout.decode(errors='replace')
+        crashed = False
         if p.returncode != 0:
-            raise ToolTrouble('stress harness failed rc=%d: %s' % (p.returncode, sout[-1500:]))
+            # a crash whose stack goes through hc's write path (writers corrupting shared state until the runtime gives up) is
+            # an observation about hc, anything else is trouble of the harness
+            if ('panic' in sout or 'fatal error' in sout) and ('brutella/hc/hap.(*Connection)' in sout or 'brutella/hc/crypto.(*secureSession)' in sout):
+                crashed = True
+            else:
+                raise ToolTrouble('stress harness failed rc=%d: %s' % (p.returncode, sout[-1500:]))
         # only races whose stacks go through hc's write path count
         for blk in sout.split('WARNING: DATA RACE')[1:]:
             if 'brutella/hc/hap.(*Connection)' in blk or 'brutella/hc/crypto.(*secureSession).Encrypt' in blk:
                 races += 1
-        sl = read_ndjson(spath)
+        sl = read_ndjson(spath) if os.path.exists(spath) else []
+        if crashed:
+            sl.append(dict(ev='stress', i=len(sl), ctrs=[], owners=[], intact=False, realised=True, order=[], races=0, crashed=True))
+            races = max(races, 1)
         nstress = len(sl)
         stress_case = dict(id=10 ** 6, kind='stress', steps=[dict(a='Stress', w='all')])
         behs.append(stress_case)
